@@ -142,6 +142,11 @@ func init() {
 						if fresh[fn] && !canReturnError(c, fn) {
 							return
 						}
+						// a call-free accessor (cursor advance, stack pop) hands back a value
+						// stored earlier: it has no failure of its own to report
+						if callFree(c, fn) {
+							return
+						}
 					}
 					construct := ord.next(how + " " + name)
 					obs = append(obs, mkOb(c, "ERR.discarded", u, construct, n, Undecided,
@@ -169,6 +174,28 @@ func init() {
 			}
 			return obs
 		}})
+}
+
+// callFree: the function is declared in this module and its body makes no
+// call other than to Go builtins and type conversions.
+func callFree(c *Ctx, fn *types.Func) bool {
+	fd := c.declOf[fn]
+	if fd == nil || fd.Body == nil {
+		return false
+	}
+	info := c.pkgOf[fd].TypesInfo
+	for _, ce := range callsIn(fd.Body, true) {
+		if tv, ok := info.Types[ce.Fun]; ok && tv.IsType() {
+			continue
+		}
+		if id, ok := ast.Unparen(ce.Fun).(*ast.Ident); ok {
+			if _, isB := info.Uses[id].(*types.Builtin); isB {
+				continue
+			}
+		}
+		return false
+	}
+	return true
 }
 
 // canReturnError: the function contains a call to an Error* constructor.
